@@ -138,6 +138,9 @@ impl<S: WebSocket, T: TimestampProvider> Task<S, T> {
         mut dropped_flows_rx: mpsc::UnboundedReceiver<DroppedFlow>,
         mut tx_msg_rx: mpsc::UnboundedReceiver<Message>,
     ) -> Result<()> {
+        // The keepalive clock starts when the task does, not when the `Multiplexor` was built:
+        // no `Ping` could be sent and no `Pong` noticed before now.
+        *self.last_pong_timestamp.lock() = T::now();
         let (should_drain_frame_rx, res) = futures_util::select_biased! {
             r = self.process_ws_next().fuse() => {
                 debug!("`process_ws_next` finished: {r:?}");
